@@ -121,6 +121,9 @@ func cmdFunc(args []string) {
 			for _, o := range res.Obls {
 				r := runSolver(context.Background(), solvers[0], Script(append(append([]*Term{}, en...), o.PC), ScriptOpts{}), 5)
 				fmt.Printf("   reach %-8s %s %s\n", r.verdict, o.Name, o.Pos)
+				if d := os.Getenv("GVC_DUMPOBL"); d != "" && strings.HasSuffix(o.Name, d) {
+					os.WriteFile("/tmp/dumpobl.smt2", []byte(Script(append(append([]*Term{}, en...), o.PC), ScriptOpts{})), 0o644)
+				}
 			}
 			os.Exit(0)
 		}
